@@ -10,6 +10,9 @@ use crate::world::*;
 use std::marker::PhantomData;
 
 pub struct LifeCfg {
+    /// the prefix runs exactly pre_send sends and pre_recv receives (a concrete resting state: the
+    /// heavy scenarios cannot afford the symbolic one)
+    pub exact: bool,
     pub cap: u64,
     pub n: u8,
     pub depth: u8,
@@ -22,6 +25,7 @@ pub struct LifeCfg {
 
 /// list-changing operations are heavy as injected operations: one per site, small prefix
 pub const LR: LifeCfg = LifeCfg {
+    exact: true,
     cap: 2,
     n: 2,
     depth: 1,
@@ -33,6 +37,7 @@ pub const LR: LifeCfg = LifeCfg {
 };
 
 pub const LQ: LifeCfg = LifeCfg {
+    exact: false,
     cap: 2,
     n: 2,
     depth: 1,
@@ -48,7 +53,7 @@ fn prefix<F: Fl>(c: &LifeCfg) {
     if c.pre_send == 0 {
         return;
     }
-    let ps: u8 = kani::any();
+    let ps: u8 = if c.exact { c.pre_send } else { kani::any() };
     kani::assume(ps <= c.pre_send);
     let mut i = 0;
     while i < c.pre_send {
@@ -59,7 +64,7 @@ fn prefix<F: Fl>(c: &LifeCfg) {
         }
         i += 1;
     }
-    let pr: u8 = kani::any();
+    let pr: u8 = if c.exact { c.pre_recv } else { kani::any() };
     kani::assume(pr <= c.pre_recv && pr <= ps);
     let mut i = 0;
     while i < c.pre_recv {
@@ -547,7 +552,7 @@ pub fn remove_race<F: Fl, const KIND: u8, const OUTER: usize>(c: &LifeCfg) {
     ledger::declare_other(4, 1);
     ledger::declare_other(8, 2);
     // prefix: ps sends; stream 0 consumes pr0 of them (the other streams stay at the start)
-    let ps: u8 = kani::any();
+    let ps: u8 = if c.exact { c.pre_send } else { kani::any() };
     kani::assume(ps <= c.pre_send);
     let mut i = 0;
     while i < c.pre_send {
@@ -558,7 +563,7 @@ pub fn remove_race<F: Fl, const KIND: u8, const OUTER: usize>(c: &LifeCfg) {
         }
         i += 1;
     }
-    let pr0: u8 = kani::any();
+    let pr0: u8 = if c.exact { c.pre_recv } else { kani::any() };
     kani::assume(pr0 <= ps && pr0 <= c.pre_recv && (KIND != 3 || pr0 == 0));
     let mut i = 0;
     while i < c.pre_recv {
@@ -796,8 +801,8 @@ life!(c07_bc_view_o1, hk_c07_bc_view_o1, Runner<Disc<BcB, 1, true>, 1>, disconne
 life!(c07_mp_view_o1, hk_c07_mp_view_o1, Runner<Disc<MpB, 1, true>, 1>, disconnect::<MpB, 1, true, 1>(&LQ));
 // C10
 life!(c10_bc_sole_o1, hk_c10_bc_sole_o1, Runner<Add<BcB, false, 2, 2>, 1>, add_stream::<BcB, false, 1, 2, 2>(&LQ));
-life!(c10_bc_sole_o0, hk_c10_bc_sole_o0, Runner<Add<BcB, false, 1, 2>, 0>, add_stream::<BcB, false, 0, 1, 2>(&LifeCfg { pre_recv: 1, ..LQ }));
-life!(c03_bc_addstream_o0_n1, hk_c03_bc_addstream_o0_n1, Runner<Add<BcB, false, 1, 2>, 0>, add_stream::<BcB, false, 0, 1, 2>(&LifeCfg { cap: 1, n: 1, pre_send: 1, pre_recv: 1, ..LQ }));
+life!(c10_bc_sole_o0, hk_c10_bc_sole_o0, Runner<Add<BcB, false, 1, 2>, 0>, add_stream::<BcB, false, 0, 1, 2>(&LifeCfg { exact: true, pre_send: 2, pre_recv: 0, ..LQ }));
+life!(c03_bc_addstream_o0_n1, hk_c03_bc_addstream_o0_n1, Runner<Add<BcB, false, 1, 2>, 0>, add_stream::<BcB, false, 0, 1, 2>(&LifeCfg { exact: true, cap: 1, n: 1, pre_send: 1, pre_recv: 0, ..LQ }));
 life!(c10_bc_sib_o1, hk_c10_bc_sib_o1, Runner<Add<BcB, true, 2, 1>, 1>, add_stream::<BcB, true, 1, 2, 1>(&LifeCfg { budget: 3, per_site: 3, ..LQ }));
 // C11
 life!(c11_bc_drop_last_o1, hk_c11_bc_drop_last_o1, Runner<Rem<BcB, false>, 1>, remove_stream::<BcB, false, true, 1>(&LQ));
@@ -808,7 +813,7 @@ life!(c11_bc_droprace_o1, hk_c11_bc_droprace_o1, Runner<Rem2<BcB, 1>, 1>, remove
 life!(c11_bc_addrace_o1, hk_c11_bc_addrace_o1, Runner<Rem2<BcB, 2>, 1>, remove_race::<BcB, 2, 1>(&LR));
 life!(c11_bc_addrace_o2, hk_c11_bc_addrace_o2, Runner<Rem2<BcB, 2>, 2>, remove_race::<BcB, 2, 2>(&LR));
 life!(c11_bc_bothhandles_o1, hk_c11_bc_bothhandles_o1, Runner<Rem2<BcB, 4>, 1>, remove_race::<BcB, 4, 1>(&LR));
-life!(c10_bc_addadd_o1, hk_c10_bc_addadd_o1, Runner<Rem2<BcB, 3>, 1>, remove_race::<BcB, 3, 1>(&LR));
+life!(c10_bc_addadd_o1, hk_c10_bc_addadd_o1, Runner<Rem2<BcB, 3>, 1>, remove_race::<BcB, 3, 1>(&LifeCfg { pre_recv: 0, ..LR }));
 // C12
 life!(c12_mp_senders_o0, hk_c12_mp_senders_o0, Runner<Churn<MpB, 1>, 0>, churn::<MpB, 1, 0>(&LifeCfg { pre_send: 1, pre_recv: 1, per_site: 1, ..LQ }));
 life!(c12_bc_senders_o0, hk_c12_bc_senders_o0, Runner<Churn<BcB, 1>, 0>, churn::<BcB, 1, 0>(&LifeCfg { pre_send: 1, pre_recv: 1, per_site: 1, ..LQ }));
